@@ -20,17 +20,12 @@ class StrOps:
         """replace characters pinned to one value by that value; FixedStr of concrete chars -> str"""
         if isinstance(v, FixedStr):
             out = []
-            allc = True
             for c in v.chars:
                 x = self.ctx.char_value(c)
-                if x is None or (not isinstance(c, int) and c.get_id() in self.ctx.relvars and False):
-                    allc = False
-                    out.append(c)
-                else:
-                    out.append(x)
-            if allc:
-                return ''.join(chr(c) for c in out)
-            return FixedStr(out)
+                if x is None:
+                    return v          # keep the variables (identity matters for memoised contracts)
+                out.append(x)
+            return ''.join(chr(c) for c in out)
         return v
 
     def need_concrete(self, v, what='value'):
@@ -96,8 +91,20 @@ class StrOps:
                 if n > MAXDIGITS:
                     raise Raise(ValueError, 'int(): more than 4300 digits')
                 total = 0
-                for ch in chars:
+                src = ctx.__dict__.get('digit_src', {})
+                p = 0
+                while p < n:
+                    ch = chars[p]
+                    e = src.get(ch.get_id()) if not isinstance(ch, int) else None
+                    if e is not None and e[2] == e[3] - 1 and p + e[3] <= n and all(
+                            (not isinstance(chars[p + j], int)) and src.get(chars[p + j].get_id(), (None,))[0] == e[0]
+                            and src[chars[p + j].get_id()][2] == e[3] - 1 - j for j in range(e[3])):
+                        # the complete digit string of one integer: its value is that integer
+                        total = total * (10 ** e[3]) + e[1]
+                        p += e[3]
+                        continue
                     total = total * 10 + (ch - 48)
+                    p += 1
                 return total
             dec = cls('decimal')
             alld = And(*[in_set(ch, dec) for ch in chars])
@@ -140,9 +147,19 @@ class StrOps:
         if isinstance(ch, int):
             from .isets import decimal_value
             return decimal_value(ch)
-        if self._dom(ch).subset(DIGITS):
+        d = self._dom(ch)
+        if d.subset(DIGITS):
             return ch - 48
-        return decval_term(ch)
+        memo = self.ctx.__dict__.setdefault('decvals', {})
+        k = ch.get_id()
+        if k not in memo:
+            dv = self.ctx.fresh_int('dv')
+            self.ctx.add(dv == decval_term(ch))
+            self.ctx.add(z3.And(dv >= (0 if d.subset(cls('decimal')) else -1), dv <= 9))
+            memo[k] = dv
+        elif d.subset(cls('decimal')):
+            self.ctx.add(memo[k] >= 0)
+        return memo[k]
 
     def _digit_value(self, ch, base):
         """z3 term: value of ch as a digit in the base, -1 if it is none"""
@@ -228,10 +245,12 @@ class StrOps:
             if k > maxdigits:
                 raise Unsupported('str() of an unbounded symbolic int')
         digs = []
+        src = ctx.__dict__.setdefault('digit_src', {})
         for i in reversed(range(k)):
             d = ctx.fresh_char(DIGITS, 'd')
             digs.append(d)
             ctx.add(d == 48 + ((v / (10 ** i)) % 10 if i else v % 10))
+            src[d.get_id()] = (v.get_id(), v, i, k)
         body = digs
         if pad == '0':
             while len(sign) + len(body) < width:
